@@ -19,13 +19,16 @@ Emit == Len(hist) = K + 1 /\ Last.op = "update" /\ Last.item = "role" /\ Last.v 
           => PrintT(<<"B", ToJson(hist)>>)
 \* Systematic family (quick and thorough): EVERY operation x item x value x caller as a one-step behaviour from the
 \* all-unlocked and from the all-locked state (the product lock state x operation x caller class is never sampled)
+Present == [i \in Items |-> 1]
+AbsentEntries == [i \in Items |-> IF i \in {"kv", "kvs", "md", "roy"} THEN 0 ELSE 1]
 BInit == /\ GInit
          /\ locked \in {[i \in Items |-> FALSE], [i \in Items |-> i # "role"]}
-         /\ val = [i \in Items |-> 1]
+         /\ val \in {Present, AbsentEntries}
 BSpec == BInit /\ [][GNext]_<<vars, hist>>
 \* ... and every operation x caller right after a transaction locked the item it targets or any other item
-LockFirst == IF Len(hist) = 1 THEN GStep(\E i \in Lockable : Lock(i, {1})) ELSE GNext
-B2Spec == /\ GInit /\ locked = [i \in Items |-> FALSE] /\ val = [i \in Items |-> 1]
+\* (present or absent entry), restricted in the second step to the operations on that item
+LockFirst == IF Len(hist) = 1 THEN GStep(\E i \in Lockable : Lock(i, {1})) ELSE GStep(Next /\ ret'[2] = hist[2].item)
+B2Spec == /\ GInit /\ locked = [i \in Items |-> FALSE] /\ val \in {Present, AbsentEntries}
           /\ [][LockFirst]_<<vars, hist>>
 EmitAll == Len(hist) = K + 1 => PrintT(<<"B", ToJson(hist)>>)
 =============================================================================
